@@ -40,8 +40,8 @@ PROPS = {
     "C04": {
         "cases": {"quick": 640, "thorough": 32000},
         "rule": "Per case one random definition of any invariant-respecting shape x byte-string "
-                "vectors (noise over the definition's names, junk items, invalid UTF-8, 1-4 KiB "
-                "clusters, sentences with hostile values) x modes {parse, completion revisions "
+                "vectors (noise over the definition's names, junk items, invalid UTF-8, clusters of "
+                "0.4-1.2 KiB (quick) / up to 4 KiB (thorough), sentences with hostile values) x modes {parse, completion revisions "
                 "0/1/7/8/9 with/without application name} plus markdown/html/manpage rendering; "
                 "every execution runs under catch_unwind with a fuel budget and is repeated three "
                 "times (again, after unrelated runs, fresh parser) and compared. " + DISTINCT,
@@ -127,7 +127,8 @@ PROPS = {
         ],
         "must_observe": ["class:accepted-line", "class:insert:foreign-long",
                          "class:insert:foreign-short", "class:insert:flag-with-value",
-                         "class:insert:duplicate-flag", "accept_ledgers_checked"],
+                         "class:insert:duplicate-flag", "accept_ledgers_checked",
+                         "class:partial-group:FallbackWithOk", "class:partial-group:Optional"],
         "needs_hooks": True,
         "technique": "runtime monitoring: derivation-directed insertion oracle + conservation "
                      "oracle on unique tokens + invariant hooks on the consumption ledger "
@@ -146,15 +147,18 @@ PROPS = {
                 "derivations (alternately mostly-absent and mostly-present) must yield the denoted "
                 "value; then every typed occurrence is replaced, one at a time, by every kind of "
                 "invalid text (non-numeric, empty, `1x`, `-`, overflow, invalid UTF-8, "
-                "guard-tripping, parse-tripping) and the run must fail on stderr, with the "
+                "guard-tripping, parse-tripping; also as the value of the declared environment "
+                "variable of an item absent from the line) and the run must fail on stderr, with the "
                 "conversion/guard/parse message in the text unless the item is inside a choice. "
                 + DISTINCT,
         "assumptions": COMMON_ASSUMPTIONS + [
             "Expected conversion messages are obtained by calling the same FromStr impls in the "
             "harness; items under catch() are skipped (documented opposite behaviour).",
-            "Environment variables declared by generated definitions are unset.",
+            "Environment variables declared by generated definitions are unset except for the "
+            "one variable a case sets to an invalid value (single-threaded shards).",
         ],
-        "must_observe": ["class:sentence-mostly-absent", "class:invalid:conversion:plain",
+        "must_observe": ["class:sentence-mostly-absent", "class:invalid:environment-variable",
+                         "class:invalid:conversion:plain",
                          "class:invalid:guard:plain", "class:invalid:parse:plain",
                          "message-present"],
         "needs_hooks": True,
